@@ -37,10 +37,10 @@ def rule_guard_id(ctx, tu):
                     # Euler form: mesh_x[I] += mesh_dxdt[I] * dt  (the derivative is forced to 0 for flagged entries)
                     euler = False
                     if s.op == "+=" and s.rhs is not None:
-                        subs_ = [subscript(y) for y in walk(s.rhs) if subscript(y) is not None and
-                                 y.get("kind") in ("CXXOperatorCallExpr",)]
-                        euler = any(cxa.lvalue_base(b[0]) == ("field", "mesh_dxdt") and repr(cxa.poly(b[1])) == I
-                                    for b in subs_) and len(subs_) == 1
+                        from ..poly import Rat
+                        from . import c02
+                        got = c02.expr_rat(s.rhs, {})
+                        euler = got.equals(Rat.sym("mesh_dxdt[%s]" % I) * Rat.sym("dt"))
                     ctx.check(guarded or euler, R, s.node, m.qual, text(s.node)[:100],
                               "under !%s" % flag if guarded else "adds mesh_dxdt[%s]*dt, which is 0 for flagged entries" % I,
                               "an amount is written without a dominating test of the chemostat flag of the same "
